@@ -61,6 +61,9 @@ CHECKS = {
 
  'C11': ('Q2 term-by-term identity of lifted problems before/after the real (de)serialisation hooks executed through a tree-walking json stand-in with symbolic numeric leaves; tree equality of re-saved JSON; grid points/zone', '6 C11',
          'For 16 asset classes/parameter forms x {fresh, after set-up} x grids and portfolios carrying naive/CET/ambiguous-hour grids: for ALL numeric contents the loaded object yields the identical problem for symbolic prices on two grids, re-saving reproduces the JSON tree, grid points and time zone survive. Classes, dates and forms are enumerated (structure); one open known finding (LinkedAsset).'),
+
+ 'C19': ('Q1 per path of the real restricted-grid constructor and values_to_grid executed on a directly constructed grid state with SYMBOLIC time points, windows, interval bounds and values; Q2 for coarse grids with symbolic step lengths; concrete enumeration for pandas-built grids', '6 C19',
+         'Restricted grid: for every placement of a symbolic window relative to 3-4 symbolic strictly increasing points the result is exactly the index-consistent subset in [start,end). Interval data: for all placements of <=2 symbolic intervals (explicit/implicit end, single start, scalars) each point gets the value of the containing interval, NaN iff outside, ValueError iff a point lies in two intervals. Coarse grids partition the covered fine steps with dt = sum of fine dt (symbolic). Grid construction by pandas (DST, months) is checked concretely on 15 grids - enumerated, not solver-decided.'),
 }
 NA = {}
 props = [json.loads(l) for l in open(os.path.join(ROOT, 'properties.jsonl'))]
